@@ -172,7 +172,7 @@ package seq
 //@   requires c != nil && k != nil && Co(k) == c
 //@   ensures[attrs] n != nil && nres(n) == f && nst(n) == stackOf(k) && Co(n) == c
 //@   ensures[pure] W == old(W)
-//@ closure mkNextRecv#0 (recv) (r)
+//@ closure mkNextRecv#0 as @return (recv) (r)
 //@   ghost nres(self) == f && nst(self) == stackOf(k) && Co(self) == c
 
 //@ func mkNext(f, c, k) (n)
@@ -180,7 +180,7 @@ package seq
 //@   requires c != nil && k != nil && Co(k) == c
 //@   ensures[attrs] n != nil && nres(n) == wrapL(f) && nst(n) == stackOf(k) && Co(n) == c
 //@   ensures[pure] W == old(W)
-//@ closure mkNext#0 (x) (r)
+//@ closure mkNext#0 as @mkNextRecv.0 (x) (r)
 //@   ghost self == wrapL(f)
 
 //@ func newGenerator(next) (d)
@@ -198,9 +198,9 @@ package seq
 //@   ensures[co] Co(as(ptr(it), generator).next) != nil && fresh(Co(as(ptr(it), generator).next))
 //@        && as(Co(as(ptr(it), generator).next), co).step == nil
 //@   ensures[pure] W == old(W)
-//@ closure Start#0 () (r)
+//@ closure Start#0 as @mkNext.0 () (r)
 //@   ghost self == constL(seq)
-//@ closure Start#1 (t, v)
+//@ closure Start#1 as @mkNext.2 (t, v)
 //@   ghost stackOf(self) == Top(it)
 //@   ghost Co(self) == theNew(co)
 //@   captured-inv it != nil
@@ -209,27 +209,27 @@ package seq
 //@   requires f != nil      -- user precondition (a nil thunk panics in the advance that resumes it)
 //@   ensures[shape] s != nil && shape(s) == ShBind(v, f)
 //@   ensures[pure] W == old(W)
-//@ closure Bind#0 (c, k)
+//@ closure Bind#0 as @return (c, k)
 //@   ghost shape(self) == ShBind(v, f)
 
 //@ func BindRecv(v, f) (s)
 //@   requires f != nil
 //@   ensures[shape] s != nil && shape(s) == ShBindR(v, f)
 //@   ensures[pure] W == old(W)
-//@ closure BindRecv#0 (c, k)
+//@ closure BindRecv#0 as @return (c, k)
 //@   ghost shape(self) == ShBindR(v, f)
 
 //@ func For(cond, post, body) (s)
 //@   requires body != nil
 //@   ensures[shape] s != nil && shape(s) == ShFor(cond, post, body)
 //@   ensures[pure] W == old(W)
-//@ closure For#0 (c, k)
+//@ closure For#0 as @return (c, k)
 //@   ghost shape(self) == ShFor(cond, post, body)
-//@ closure For#0.0 (skipPost)
+//@ closure For#0.0 as loop (skipPost)
 //@   requires c.step == nil
 //@   refines LoopHead(skipPost, cond, post, body, stackOf(k))
 //@   co c
-//@ closure For#0.0.0 (t, v)
+//@ closure For#0.0.0 as @body.1 (t, v)
 //@   ghost stackOf(self) == FLoop(cond, post, body, stackOf(k)) && Co(self) == c
 
 //@ func While(cond, body) (s)
@@ -245,23 +245,23 @@ package seq
 //@   requires f != nil
 //@   ensures[shape] s != nil && shape(s) == ShDelay(f)
 //@   ensures[pure] W == old(W)
-//@ closure Delay#0 (c, k)
+//@ closure Delay#0 as @return (c, k)
 //@   ghost shape(self) == ShDelay(f)
 
 //@ func Combine(s1, s2) (s)
 //@   requires s1 != nil && s2 != nil
 //@   ensures[shape] s != nil && shape(s) == ShCombine(s1, s2)
 //@   ensures[pure] W == old(W)
-//@ closure Combine#0 (c, k)
+//@ closure Combine#0 as @return (c, k)
 //@   ghost shape(self) == ShCombine(s1, s2)
-//@ closure Combine#0.0 (t, v)
+//@ closure Combine#0.0 as @s1.1 (t, v)
 //@   ghost stackOf(self) == FSeq2(s2, stackOf(k)) && Co(self) == c
 
 //@ func seqOfK(kt) (s)
 //@   requires 0 <= kt && kt <= 3
 //@   ensures[shape] s != nil && shape(s) == ShOfSig(kt)
 //@   ensures[pure] W == old(W)
-//@ closure seqOfK#0 (c, k)
+//@ closure seqOfK#0 as @return (c, k)
 //@   ghost shape(self) == ShOfSig(kt)
 
 //@ func Normal() (s)
@@ -279,7 +279,7 @@ package seq
 //@ func ReturnValue(v) (s)
 //@   ensures[shape] s != nil && shape(s) == ShRetV(v)
 //@   ensures[pure] W == old(W)
-//@ closure ReturnValue#0 (c, k)
+//@ closure ReturnValue#0 as @return (c, k)
 //@   ghost shape(self) == ShRetV(v)
 
 // ---------------------------------------------------------------- generator (C09, C02, C18)
